@@ -293,6 +293,41 @@ RotLenOk(ev) ==
     /\ AllFinite(ev.got)
     /\ DyNear(VSq(DV(ev.got)), VSq(a), DyMul(DyPow2(8 - p), VSq(a)))
 
+\* ---- clamp_length / clamp_length_min / clamp_length_max: direction kept, length inside the requested bounds, untouched if already inside ----
+ClampLenOk(ev) ==
+    LET p == P(ev) rel == DyPow2(6 - p) a == DV(ev.a) lo == DecDy(ev.min) hi == DecDy(ev.max) a2 == VSq(a)
+        lo2 == DySq(lo) hi2 == DySq(hi) IN
+    /\ AllFinite(ev.got) /\ DyIsPos(a2) /\ ~DyIsNeg(lo) /\ DyLe(lo, hi)
+    /\ LET r == DV(ev.got) r2 == VSq(r) IN
+       /\ DyLe(Lagrange(r, a), DyMul(DyPow2(8 - 2 * p), DyMul(r2, a2)))                        \* still along a
+       /\ DyIsPos(VDot(r, a))
+       /\ DyLe(DyMul(lo2, DySub(Dy1, rel)), r2) /\ DyLe(r2, DyMul(hi2, DyAdd(Dy1, rel)))        \* min <= |r| <= max (within 2^6 u)
+       /\ (DyLe(DyMul(lo2, DyAdd(Dy1, rel)), a2) /\ DyLe(a2, DyMul(hi2, DySub(Dy1, rel)))) => SameVec(r, a)   \* clearly inside: returned unchanged
+
+\* ---- any_orthogonal_vector / any_orthonormal_vector / any_orthonormal_pair -------------------------------------------------
+OrthoOk(ev) ==
+    LET p == P(ev) t == DyPow2(6 - p) a == DV(ev.a) IN
+    /\ \A j \in 1..Len(ev.got) : AllFinite(ev.got[j])
+    /\ LET g == [j \in 1..Len(ev.got) |-> DV(ev.got[j])] IN
+       /\ \A j \in 1..Len(g) : /\ DyLe(DySq(VDot(a, g[j])), DyMul(DySq(t), DyMul(VSq(a), VSq(g[j]))))       \* orthogonal to the input
+                                 /\ DyIsPos(VSq(g[j]))
+                                 /\ ev.unit = 1 => DyNear(VSq(g[j]), Dy1, t)
+       /\ Len(g) = 2 => DyLe(DySq(VDot(g[1], g[2])), DySq(t))                                                    \* and to each other
+
+\* ---- from_rotation_arc(a, b) * a = b; from_rotation_arc_colinear aligns a with +-b (unit inputs; the quaternion is logged) ------------
+ArcOk(ev) ==
+    LET p == P(ev) t == DyPow2(8 - p) a == DV(ev.a) b == DV(ev.b) IN
+    /\ AllFinite(ev.q)
+    /\ DyNear(VSq(a), Dy1, t) /\ DyNear(VSq(b), Dy1, t)
+    /\ LET q == DV(ev.q) img == MatVec3(QuatMat(q), a)
+           \* the arc is ill-conditioned towards opposite vectors: its error grows like u / sqrt(1 + a.b) (the rotation axis a x b
+           \* vanishes); exactly opposite vectors take the documented half turn about an arbitrary axis
+           w1(bb) == DyAdd(Dy1, VDot(a, bb))
+           lane(d, bb) == DyLe(DySq(d), DySq(t)) \/ (DyIsPos(w1(bb)) /\ DyLe(DyMul(DySq(d), w1(bb)), DySq(DyPow2(6 - p))))
+           hits(bb) == \A i \in 1..3 : lane(DySub(img[i], bb[i]), bb) IN
+       /\ DyNear(VSq(q), Dy1, t)
+       /\ IF ev.colinear = 1 THEN hits(b) \/ hits(VNeg(b)) ELSE hits(b)
+
 Ok(ev) ==
     CASE ev.op = "normalize" -> NormalizeOk(ev)
       [] ev.op = "angle_parallel" -> AngleParallelOk(ev)
@@ -301,6 +336,9 @@ Ok(ev) ==
       [] ev.op = "vslerp8" -> VSlerp8Ok(ev)
       [] ev.op = "rot_reach" -> RotReachOk(ev)
       [] ev.op = "rot_len" -> RotLenOk(ev)
+      [] ev.op = "clamp_len" -> ClampLenOk(ev)
+      [] ev.op = "ortho" -> OrthoOk(ev)
+      [] ev.op = "arc" -> ArcOk(ev)
       [] ev.op = "view" -> ViewOk(ev)
       [] ev.op = "euler" -> EulerOk(ev)
       [] ev.op \in {"length", "distance", "length_recip", "project_onto", "reject_from"} -> SqrtRelOk(ev)
